@@ -63,6 +63,10 @@ fn fixed_sig() -> ([u8; 32], [u8; 32]) {
 
 /// What hdwallet made of the document: digest and encodings under a fixed signature with both parities.
 fn observe(doc: &str) -> Result<Result<([u8; 32], Option<Vec<u8>>, Option<Vec<u8>>), String>, String> {
+    crate::isolate::inflight("transaction", doc.as_bytes(), "generated", || observe_inner(doc))
+}
+
+fn observe_inner(doc: &str) -> Result<Result<([u8; 32], Option<Vec<u8>>, Option<Vec<u8>>), String>, String> {
     catch(|| {
         let tx = serde_json::from_str::<Transaction>(doc).map_err(|e| e.to_string())?;
         let d = tx.signing_message().0;
